@@ -103,10 +103,10 @@ def cell_str(loc):
 class Scanner:
     """one instantiated variant: functions by role, per-function buffer-pointer taint (with parameter taint
     propagated through the call sites of the translation unit)."""
-    def __init__(s, v):
+    def __init__(s, v, mod=None):
         s.v = v
-        s.mod = variants.module(v)
-        s.prog = variants.program(v)
+        s.mod = mod if mod is not None else variants.module(v)
+        s.prog = ir.Program([s.mod])
         s.by_role = {}
         for f in s.mod.functions.values():
             r = fn_role(f.name)
@@ -365,7 +365,8 @@ class FnAnalysis:
             if l[0] == 'local': return s._table_locals is not None and l[1] in s._table_locals
             if l[0] == 'global': return canon(l[1]) in TABLES
             if l[0] == 'field': return canon(l[2]) in TABLES
-            return False
+            # a pointer stored in a table (yy_start_state_list[] holds pointers into yy_transition)
+            return s.is_table_ptr(d.ops[0], depth + 1)
         if d.op in ('getelementptr', 'bitcast'): return s.is_table_ptr(d.ops[0], depth + 1)
         if d.op == 'phi': return any(s.is_table_ptr(o, depth + 1) for o in d.ops)
         if d.op == 'select': return any(s.is_table_ptr(o, depth + 1) for o in d.ops[1:])
